@@ -142,4 +142,9 @@ abbrev StateWrites := List (String × String × String × String)
 
 def StateWrites.none (t : StateWrites) : Bool := t.isEmpty
 
+/-- data-dependent `return sample` shortcuts of the stage classes (class, how many): an early exit whose condition looks
+at the tensors skips the modelled program of the stage.  The two known ones are modelled (`padCoils` leaves a sample
+with enough coils unchanged; coil compression is an external that is the identity when there are few enough coils). -/
+def dataEarlyReturns : List (String × Nat) := [("CompressCoilModule", 1), ("PadCoilDimensionModule", 1)]
+
 end DirectVerif.Pipeline
